@@ -554,4 +554,188 @@ theorem encodeBytes_list (s : Bytes) (h : s.length < 2 ^ 64) :
   · rw [if_pos (by omega), if_pos h56]
   · rw [if_neg (by omega), if_neg h56, int64ToMinimalBytes_eq h]
 
+
+theorem extractLongLenAux_lt {k : Nat} {bs : Bytes} {dl pos : Nat} (hne : 0 < bs.length)
+    (h : extractLongLenAux k bs = .ok (dl, pos)) : dl < 256 ^ k := by
+  have hb := extractLongLenAux_ok hne h
+  obtain ⟨hpos, hfit, hmax, hdl⟩ := hb
+  have h1 := fromBE_lt ((bs.drop 1).take k)
+  have hl : ((bs.drop 1).take k).length = k := by simp; omega
+  rw [hl] at h1
+  have := Nat.mod_le (fromBE ((bs.drop 1).take k)) (2 ^ 64)
+  omega
+
+theorem Rb_length_le (d : Bytes) (k : Nat) (hk : d.length < 256 ^ k) :
+    (Spec.Rlp.Rb d).length ≤ 1 + k + d.length := by
+  cases k with
+  | zero =>
+    have : d = [] := List.eq_nil_of_length_eq_zero (by simpa using hk)
+    subst this; simp [Spec.Rlp.Rb]
+  | succ k =>
+    unfold Spec.Rlp.Rb
+    split
+    · split <;> simp
+    · split
+      · simp; omega
+      · have := minBE_length_le hk
+        simp; omega
+
+theorem Rb_length_le_short (d : Bytes) (h : d.length < 56) : (Spec.Rlp.Rb d).length ≤ 1 + d.length := by
+  unfold Spec.Rlp.Rb
+  split
+  · split <;> simp
+  · rw [if_pos h]; simp; omega
+
+theorem Rl_length_le (s : Bytes) (k m : Nat) (hm : s.length ≤ m) (hk : m < 256 ^ k) :
+    (Spec.Rlp.Rl s).length ≤ 1 + k + m := by
+  unfold Spec.Rlp.Rl
+  split
+  · simp; omega
+  · have := minBE_length_le (w := k) (v := s.length) (by omega)
+    simp; omega
+
+theorem Rl_length_le_short (s : Bytes) (m : Nat) (hm : s.length ≤ m) (h : m < 56) :
+    (Spec.Rlp.Rl s).length ≤ 1 + m := by
+  unfold Spec.Rlp.Rl
+  rw [if_pos (by omega)]; simp; omega
+
+/-- canonical re-encoding of a decoded string is never longer than what was consumed -/
+theorem header_leaf_canon {bs : Bytes} {it : Item} {n : Nat} (h : header bs = .ok (.leaf it n)) :
+    ∃ d, it = .str d ∧ (Spec.Rlp.Rb d).length ≤ n ∧ d.length < 2 ^ 31 := by
+  cases bs with
+  | nil => simp [header] at h
+  | cons b t =>
+    unfold header at h
+    simp only [] at h
+    split at h
+    · rename_i h0
+      injection h with h; injection h with h1 h2; subst h1 h2
+      rw [decCase0_iff] at h0
+      refine ⟨[b], rfl, ?_, by simp⟩
+      simp [Spec.Rlp.Rb, h0]
+    split at h
+    · injection h with h; injection h with h1 h2; subst h1 h2
+      exact ⟨[], rfl, by simp [Spec.Rlp.Rb], by simp⟩
+    split at h
+    · rename_i h2
+      rw [decCase2_iff] at h2
+      split at h
+      · cases h
+      · rename_i hc
+        rw [slice?_ne_panic (by omega) (by simp at *; omega)] at h
+        simp only [Outcome.bind] at h
+        injection h with h; injection h with h1 h2'; subst h1 h2'
+        have hlen : (List.take (1 + (b.toNat + 256 - shortString) % 256 - 1) (List.drop 1 (b :: t))).length
+            = (b.toNat + 256 - shortString) % 256 := by
+          simp at *; omega
+        refine ⟨_, rfl, ?_, ?_⟩
+        · have := Rb_length_le_short _ (by rw [hlen]; simp [shortString]; omega)
+          rw [hlen] at this; exact this
+        · rw [hlen]; simp [shortString]; omega
+    split at h
+    · cases he : extractLongLen false b.toNat (b :: t) with
+      | ok r =>
+        obtain ⟨dl, pos⟩ := r
+        have hb := extractLongLenAux_ok (by simp) he
+        rw [he] at h
+        simp only [Outcome.bind] at h
+        rw [slice?_ne_panic (by omega) (by omega)] at h
+        simp only [] at h
+        injection h with h; injection h with h1 h2; subst h1 h2
+        have hlt := extractLongLenAux_lt (by simp) he
+        obtain ⟨hpos, hfit, hmax, hdl⟩ := hb
+        have hlen : (List.take (pos + dl - pos) (List.drop pos (b :: t))).length = dl := by
+          simp only [List.length_take, List.length_drop]; omega
+        refine ⟨_, rfl, ?_, ?_⟩
+        · have := Rb_length_le _ _ (by rw [hlen]; exact hlt)
+          rw [hlen] at this
+          omega
+        · rw [hlen]; simp [maxInt32] at hmax; omega
+      | err => rw [he] at h; simp [Outcome.bind] at h
+      | panic => rw [he] at h; simp [Outcome.bind] at h
+    split at h
+    · split at h
+      · cases h
+      · rename_i hc
+        rw [slice?_ne_panic (by omega) (by simp at *; omega)] at h
+        simp [Outcome.bind] at h
+    · rename_i h0 h1 h2 h3 h4
+      rw [if_pos (decCase5_of_not h0 h1 h2 h3 h4)] at h
+      cases he : extractLongLen true b.toNat (b :: t) with
+      | ok r =>
+        obtain ⟨dl, pos⟩ := r
+        have hb := extractLongLen_ok (by simp) he
+        rw [he] at h
+        simp only [Outcome.bind] at h
+        rw [slice?_ne_panic (by omega) (by omega)] at h
+        simp at h
+      | err => rw [he] at h; simp [Outcome.bind] at h
+      | panic => rw [he] at h; simp [Outcome.bind] at h
+
+
+/-- canonical re-encoding of a decoded list is never longer than what was consumed, provided its
+    re-encoded payload `s` is no longer than the payload that was read -/
+theorem header_sub_canon {bs p : Bytes} {n : Nat} (h : header bs = .ok (.sub p n)) (s : Bytes)
+    (hs : s.length ≤ p.length) : (Spec.Rlp.Rl s).length ≤ n ∧ p.length < 2 ^ 31 := by
+  cases bs with
+  | nil => simp [header] at h
+  | cons b t =>
+    unfold header at h
+    simp only [] at h
+    split at h
+    · simp at h
+    split at h
+    · simp at h
+    split at h
+    · split at h
+      · cases h
+      · rename_i hc
+        rw [slice?_ne_panic (by omega) (by simp at *; omega)] at h
+        simp [Outcome.bind] at h
+    split at h
+    · cases he : extractLongLen false b.toNat (b :: t) with
+      | ok r =>
+        obtain ⟨dl, pos⟩ := r
+        have hb := extractLongLen_ok (by simp) he
+        rw [he] at h
+        simp only [Outcome.bind] at h
+        rw [slice?_ne_panic (by omega) (by omega)] at h
+        simp at h
+      | err => rw [he] at h; simp [Outcome.bind] at h
+      | panic => rw [he] at h; simp [Outcome.bind] at h
+    split at h
+    · rename_i h4
+      rw [decCase4_iff] at h4
+      split at h
+      · cases h
+      · rename_i hc
+        rw [slice?_ne_panic (by omega) (by simp at *; omega)] at h
+        simp only [Outcome.bind] at h
+        injection h with h; injection h with h1 h2; subst h1 h2
+        have hlen : (List.take (1 + (b.toNat + 256 - shortList) % 256 - 1) (List.drop 1 (b :: t))).length
+            = (b.toNat + 256 - shortList) % 256 := by
+          simp only [List.length_take, List.length_drop]; simp at *; omega
+        rw [hlen] at hs ⊢
+        refine ⟨Rl_length_le_short s _ hs (by simp [shortList]; omega), by simp [shortList]; omega⟩
+    · rename_i h0 h1 h2 h3 h4
+      rw [if_pos (decCase5_of_not h0 h1 h2 h3 h4)] at h
+      cases he : extractLongLen true b.toNat (b :: t) with
+      | ok r =>
+        obtain ⟨dl, pos⟩ := r
+        have hb := extractLongLenAux_ok (by simp) he
+        have hlt := extractLongLenAux_lt (by simp) he
+        rw [he] at h
+        simp only [Outcome.bind] at h
+        rw [slice?_ne_panic (by omega) (by omega)] at h
+        simp only [] at h
+        injection h with h; injection h with h1' h2'; subst h1' h2'
+        obtain ⟨hpos, hfit, hmax, hdl⟩ := hb
+        have hlen : (List.take (pos + dl - pos) (List.drop pos (b :: t))).length = dl := by
+          simp only [List.length_take, List.length_drop]; omega
+        rw [hlen] at hs ⊢
+        have := Rl_length_le s _ dl hs hlt
+        refine ⟨by omega, by simp [maxInt32] at hmax; omega⟩
+      | err => rw [he] at h; simp [Outcome.bind] at h
+      | panic => rw [he] at h; simp [Outcome.bind] at h
+
 end FFS.Model.Rlp
